@@ -72,7 +72,7 @@ def f11_emulate(pattern, x0, dx, sel):
 
 def build_lrs(rng, ctx, cons=None, xunits=b'FEET', dx_menu=(1, 5, 60, 250, 1, 5, 60, 250, 0)):          # 0: a stationary measurement, every frame at one X
     """the logical records of one LIS logical file (head, optional table, DFSR, data records, tail) + what they hold"""
-    nch = rng.choice([1, 2, 3, 5])
+    nch = rng.choice([1, 2, 3, 5, 1, 2, 3, 5, 9, 12, 40])       # wide passes: channel indexes beyond 8 and 32
     indirect = rng.random() < 0.5
     up = rng.random() < 0.5
     dxa = rng.choice(list(dx_menu))
@@ -353,7 +353,9 @@ def run(ctx):
             if rng.random() < 0.4:
                 chl = None
             else:
-                chl = sorted(rng.sample(range(nch), rng.randint(1, nch)))
+                chl = sorted(rng.sample(range(nch), rng.choice([1, 2, 3, rng.randint(1, nch), rng.randint(1, nch)]) if nch > 3 else rng.randint(1, nch)))
+                if rng.random() < 0.25:
+                    chl = rng.sample(chl, len(chl)) + ([chl[0]] if rng.random() < 0.3 else [])       # any order, a repeat: still a set of channels
                 if rng.random() < 0.3:
                     if shared_list is None:
                         shared_list = list(chl)
